@@ -18,6 +18,7 @@ class TLCResult:
         self.out_path = None
         self.wall_s = 0.0
         self.coverage_zero = []
+        self.postcondition_failed = False
         self.cmd = ""
 
     def as_dict(self):
@@ -31,7 +32,7 @@ def stage(workdir, files):
         shutil.copy(os.path.join(SPEC, f), os.path.join(workdir, os.path.basename(f)))
 
 
-def run_tlc(workdir, module, cfg, workers=4, heap="4g", timeout=600, extra=None, simulate=None, out_name=None, gc_threads=4):
+def run_tlc(workdir, module, cfg, workers=4, heap="4g", timeout=600, extra=None, simulate=None, out_name=None, gc_threads=4, keep_meta=False):
     """Runs TLC on <module>.tla with <cfg> inside workdir.  stdout goes to a file
     (edge lines can be hundreds of MB); statistics are parsed from it."""
     r = TLCResult()
@@ -84,6 +85,9 @@ def _parse(r):
                 r.depth = int(re.findall(r"\d+", line)[0])
             if "Model checking completed. No error has been found." in line:
                 r.ok = True
+            if "Postcondition" in line and "is false" in line:
+                r.postcondition_failed = True
+                continue
             if line.startswith("Error:") or "is violated" in line:
                 grab = 40
             if grab > 0:
@@ -95,6 +99,9 @@ def _parse(r):
             r.violation = text
         else:
             r.error = r.error or text
+    if r.postcondition_failed:
+        r.ok = False
+        return
     if not r.ok and not r.violation and not r.error:
         r.error = "TLC ended without verdict (rc=%s)" % r.rc
 
